@@ -93,7 +93,9 @@ class Check:
             if k in seen_keys:
                 continue
             seen_keys.add(k)
-            entry = next((e for e in known if e.get("status") == "known" and (e["property"], e["rule"], e["file"], e["function"], e["tag"]) == k), None)
+            # a finding names (property, rule, function, tag); the file is part of the key only for findings without a function
+            # (moving the function to another module does not change the defect, and must not turn it into a new alarm)
+            entry = next((e for e in known if e.get("status") == "known" and (e["property"], e["rule"], e["function"], e["tag"]) == (k[0], k[1], k[3], k[4]) and (e["file"] == k[2] or e["function"])), None)
             if entry is not None:
                 lines.append(f"KNOWN-FINDING: property={self.pid} {entry['id']} {f.rule} {f.site} {f.function}: {f.detail} [fails on: {f.witness}]")
             else:
